@@ -1,0 +1,57 @@
+//go:build verif
+
+// Contracts for the tvc verifier (/verif). Comment-only: with the `verif` tag off this file does not exist,
+// with it on it adds no code. Syntax: /verif/DESIGN.md appendix A.
+
+package k8s
+
+//@ for C15
+
+//@ # bandwidth annotation: <number>[unit]; number part and unit part of the normalised (trimmed, upper-cased) value
+//@ pure func bwNorm(s string) string = toUpper(trimSpace(s))
+//@ pure func bwSplit(s string) int = ite(indexLetter(bwNorm(s)) < 0, len(bwNorm(s)), indexLetter(bwNorm(s)))
+//@ pure func bwNumber(s string) string = substr(bwNorm(s), 0, bwSplit(s))
+//@ pure func bwUnit(s string) string = substr(bwNorm(s), bwSplit(s), len(bwNorm(s)))
+//@ pure func bwWellFormed(s string) bool = len(s) > 0 && parseFloatOK(bwNumber(s)) && parseFloatVal(bwNumber(s)) > real(0)
+
+//@ func parseBandwidth
+//@   panics
+//@   modifies nothing
+//@   # well-formed values are accepted with or without a unit, and the unit scales by powers of 1024
+//@   ensures bwWellFormed(s) && (bwUnit(s) == "" || bwUnit(s) == "B") ==> result1 == nil && result0 == floor(parseFloatVal(bwNumber(s)))
+//@   ensures bwWellFormed(s) && (bwUnit(s) == "K" || bwUnit(s) == "KB" || bwUnit(s) == "KIB") ==> result1 == nil && result0 == floor(parseFloatVal(bwNumber(s)) * real(1024))
+//@   ensures bwWellFormed(s) && (bwUnit(s) == "M" || bwUnit(s) == "MB" || bwUnit(s) == "MIB") ==> result1 == nil && result0 == floor(parseFloatVal(bwNumber(s)) * real(1048576))
+//@   ensures bwWellFormed(s) && (bwUnit(s) == "G" || bwUnit(s) == "GB" || bwUnit(s) == "GIB") ==> result1 == nil && result0 == floor(parseFloatVal(bwNumber(s)) * real(1073741824))
+//@   ensures bwWellFormed(s) && (bwUnit(s) == "T" || bwUnit(s) == "TB" || bwUnit(s) == "TIB") ==> result1 == nil && result0 == floor(parseFloatVal(bwNumber(s)) * real(1099511627776))
+//@   # everything else is rejected, not accepted with a made-up value
+//@   ensures !bwWellFormed(s) ==> result1 != nil
+
+//@ func parseBool
+//@   panics
+//@   modifies nothing
+//@   ensures result == (parseBoolOK(s) && parseBoolVal(s))
+
+//@ func isERDMA
+//@   requires p != nil
+//@   panics
+
+//@ # the daemon mode is fixed at start-up to one of the two supported values (checked by the builder before any pod is converted)
+//@ func podNetworkType
+//@   requires daemonMode == "ENIMultiIP" || daemonMode == "ENIOnly"
+//@   panics
+
+//@ func convertPod
+//@   requires pod != nil
+//@   requires daemonMode == "ENIMultiIP" || daemonMode == "ENIOnly"
+//@   panics
+//@   ensures result != nil
+
+//@ func serviceCidrFromAPIServer
+//@   requires c != nil
+//@   panics
+
+//@ # the object passed to client.Get is always returned, with or without an error
+//@ func getCM
+//@   requires c != nil
+//@   panics
+//@   ensures result0 != nil
